@@ -51,6 +51,15 @@ func directMapField(n *Ty) bool {
 	return ok
 }
 
+// reflPath: the reflect+unsafe access path for unexported fields of imported structs (static fixture
+// harness/static/reflpath), decided for the property's own harnesses.
+func reflPath(id string) func(r *Runner) {
+	return func(r *Runner) {
+		b := DefaultBounds
+		r.modeStatic("static", "reflpath", "^VX_"+id+"_refl_", b, false, nil)
+	}
+}
+
 func propSpecs() map[string]*PropSpec {
 	quickBounds := func(tier string) Bounds {
 		b := DefaultBounds
@@ -75,16 +84,16 @@ func propSpecs() map[string]*PropSpec {
 		}
 		m[p.ID] = p
 	}
-	add(&PropSpec{ID: "C02", Title: "Derived Equal is exactly structural equality", Gen: genC02,
+	add(&PropSpec{ID: "C02", Extra: reflPath("C02"), Title: "Derived Equal is exactly structural equality", Gen: genC02,
 		Outside: []string{"NaN", "cyclic values", "imported structs with unexported fields (reflect/unsafe path)", "values larger than the bounds"}})
-	add(&PropSpec{ID: "C03", Title: "Derived Compare is a total order consistent with Equal", Gen: genC03,
+	add(&PropSpec{ID: "C03", Extra: reflPath("C03"), Title: "Derived Compare is a total order consistent with Equal", Gen: genC03,
 		Filter: func(in Inst, tier string) bool { return !in.Tags["userEqual"] },
 		SkipKind: func(in Inst, kind, tier string) bool {
 			// three-value transitivity over map-containing types needs minutes per query: thorough tier only
 			return tier == "quick" && kind == "trans" && in.Tags["map"]
 		},
 		Outside: []string{"NaN", "cyclic values", "reflect/unsafe path", "values larger than the bounds"}})
-	add(&PropSpec{ID: "C04", Title: "Derived Hash respects Equal", Gen: genC04, AbstractMul: true,
+	add(&PropSpec{ID: "C04", Extra: reflPath("C04"), Title: "Derived Hash respects Equal", Gen: genC04, AbstractMul: true,
 		SkipKind: func(in Inst, kind, tier string) bool {
 			// the two-independent-values form over nested containers of string-bearing structs needs minutes;
 			// those shapes are covered by premise + rebuild (shared leaves) instead
@@ -117,7 +126,7 @@ func propSpecs() map[string]*PropSpec {
 			return true
 		},
 		Outside: []string{"NaN", "cyclic values", "reflect/unsafe path", "values larger than the bounds", "hashing across processes other than through map iteration order"}})
-	add(&PropSpec{ID: "C05", Title: "DeepCopy and Clone produce an equal, fully independent copy", Gen: genC05,
+	add(&PropSpec{ID: "C05", Extra: reflPath("C05"), Title: "DeepCopy and Clone produce an equal, fully independent copy", Gen: genC05,
 		Outside: []string{"cyclic values", "destinations sharing memory with the source", "reflect/unsafe path"}})
 	elemInsts := func(tier string, seed int64) []Inst {
 		var out []Inst
@@ -179,7 +188,7 @@ func propSpecs() map[string]*PropSpec {
 				os.Rename(filepath.Join(dir, "derived.gen.go"), filepath.Join(dir, "zz_default.go"))
 				data, _ := os.ReadFile(filepath.Join(dir, "h.go.second"))
 				os.WriteFile(filepath.Join(dir, "h.go"), data, 0o644)
-				os.WriteFile(filepath.Join(dir, "zz_replay_test.go"), []byte("package c12diff\n\nimport (\n\t\"testing\"\n\n\t\"github.com/awalterschulze/goderive/vxlib/vx\"\n)\n\nfunc TestVXReplay(t *testing.T) {\n\tvx.Replay(t, map[string]func(){\"VX_C12_diff_equal\": VX_C12_diff_equal, \"VX_C12_diff_compare\": VX_C12_diff_compare, \"VX_C12_diff_hash\": VX_C12_diff_hash, \"VX_C12_diff_deepcopy\": VX_C12_diff_deepcopy})\n}\n"), 0o644)
+				os.WriteFile(filepath.Join(dir, "zz_replay_test.go"), []byte("package c12diff\n\nimport (\n\t\"testing\"\n\n\t\"github.com/awalterschulze/goderive/vxlib/vx\"\n)\n\nfunc TestVXReplay(t *testing.T) {\n\tvx.Replay(t, map[string]func(){\"VX_C12_diff_equal\": VX_C12_diff_equal, \"VX_C12_diff_compare\": VX_C12_diff_compare, \"VX_C12_diff_hash\": VX_C12_diff_hash, \"VX_C12_diff_deepcopy\": VX_C12_diff_deepcopy, \"VX_C12_diff_nested\": VX_C12_diff_nested})\n}\n"), 0o644)
 				fp.GenOut, fp.GenCode, fp.GenOK = "", 0, false
 				r.S.runGoderive(fp, "-prefix=gen")
 			})
